@@ -92,6 +92,75 @@ theorem got_imp (s : St) (hr : Trace.Reach osys s) (hst : TraceFuture.step s .go
     exact ⟨hd, (isDone_imp_result s (reach_core s hr) hd).1⟩
   · cases hst
 
+/-- along any run of the traced system, the completion listeners can only have run if the run shows the `listener` event -/
+theorem listener_event_of_ran (a b : St) (tr : List Ev) (h : Trace.Run osys a tr b) (ha : listenersRan a = false)
+    (hb : listenersRan b = true) : Ev.listener ∈ tr := by
+  induction h with
+  | nil s => rw [ha] at hb; cases hb
+  | silent s s' s'' x tr hm hs hst _ ih =>
+    -- a silent step is one of the producer's stores, none of which is enabled before the listeners have run
+    have hpc : s.pc = .running := by simpa [listenersRan] using ha
+    cases x with
+    | core c =>
+      cases c with
+      | finishListeners => simp [osys, silent] at hs
+      | cancel => simp [osys, silent] at hs
+      | storeResult => simp [osys, TraceFuture.step, Future.step, hpc] at hst
+      | storeDone => simp [osys, TraceFuture.step, Future.step, hpc] at hst
+      | close => simp [osys, TraceFuture.step, Future.step, hpc] at hst
+    | seeIsDone => simp [osys, silent] at hs
+    | seeClosed => simp [osys, silent] at hs
+    | got => simp [osys, silent] at hs
+  | vis s s' s'' x e tr hm hs hsh hst hrest ih =>
+    cases x with
+    | core c =>
+      cases c with
+      | finishListeners =>
+        cases e <;> simp only [osys, shows] at hsh <;> first | (cases hsh; done) | exact List.mem_cons_self
+      | cancel =>
+        have hs' : listenersRan s' = false := by
+          simp only [osys, TraceFuture.step, Future.step] at hst
+          split at hst
+          · simp only [Option.some.injEq] at hst; subst hst; exact ha
+          · cases hst
+        exact List.mem_cons_of_mem _ (ih hs' hb)
+      | storeResult => simp [osys, silent] at hs
+      | storeDone => simp [osys, silent] at hs
+      | close => simp [osys, silent] at hs
+    | seeIsDone =>
+      simp only [osys, TraceFuture.step, Option.some.injEq] at hst; subst hst
+      exact List.mem_cons_of_mem _ (ih ha hb)
+    | seeClosed =>
+      simp only [osys, TraceFuture.step, Option.some.injEq] at hst; subst hst
+      exact List.mem_cons_of_mem _ (ih ha hb)
+    | got =>
+      simp only [osys, TraceFuture.step] at hst
+      split at hst
+      · simp only [Option.some.injEq] at hst; subst hst
+        exact List.mem_cons_of_mem _ (ih ha hb)
+      · cases hst
+
+/-- **on traces**: in every trace the model can show — hence in every recorded run the acceptor accepts — an observation
+`IsDone() = true` comes after the completion listener's event -/
+theorem isDone_true_after_listener (t1 t2 : List Ev) (c : St) (h : Trace.Run osys osys.init (t1 ++ Ev.seeIsDone true :: t2) c) :
+    Ev.listener ∈ t1 := by
+  obtain ⟨b, hb1, hb2⟩ := Trace.Run.split_append t1 (Ev.seeIsDone true :: t2) h
+  obtain ⟨b2, hb3, _⟩ := Trace.Run.split_cons hb2
+  obtain ⟨s, s', x, htau, hx, hsil, hsh, hst, _⟩ := Trace.Run.single_vis hb3
+  -- the state in which the reader looked is reachable, and it shows IsDone = true: the listeners have run there
+  have hrun : Trace.Run osys osys.init t1 s := by
+    have := Trace.Run.append hb1 (Trace.Run.of_tau htau (Trace.Run.nil s))
+    simpa using this
+  have hreach : Trace.Reach osys s := Trace.Run.reach hrun Trace.Reach.init
+  have hdone : s.doneFlag = true := by
+    cases x with
+    | seeIsDone => simpa [osys, shows] using hsh
+    | core c => cases c <;> simp [osys, shows] at hsh
+    | seeClosed => simp [osys, shows] at hsh
+    | got => simp [osys, shows] at hsh
+  have hran := (isDone_imp_result s (reach_core s hreach) hdone).2
+  exact listener_event_of_ran osys.init s t1 hrun (by decide) hran
+
 /-- non-vacuity, decided by running the acceptor: a protocol-conforming trace is accepted; `IsDone() = true` before the completion
 listener, or `Done()` closed while `IsDone()` is still false afterwards, is rejected -/
 example : (Trace.accepts osys 20 [.seeIsDone false, .listener, .seeClosed false, .seeIsDone true, .seeClosed true, .got]).map (·.isEmpty) = some false := by decide
